@@ -25,7 +25,7 @@ func (s *Sim) noisePeer() int { return len(s.nodes) + 7 }
 
 func (s *Sim) noiseStep(rss map[int]*cstypes.RoundState) {
 	c := s.cfg
-	if !(c.Forger || c.Garbage || c.Relabel) || len(rss) == 0 {
+	if !(c.Forger || c.Garbage || c.Relabel || c.EvForger) || len(rss) == 0 {
 		return
 	}
 	// one noise action per quiescent point at most, and only now and then
@@ -45,7 +45,12 @@ func (s *Sim) noiseStep(rss map[int]*cstypes.RoundState) {
 	if c.Garbage {
 		kinds = append(kinds, "garbage", "mutate-valid")
 	}
+	if c.EvForger {
+		kinds = append(kinds, "evidence")
+	}
 	switch kinds[s.tape.Draw(len(kinds))] {
+	case "evidence":
+		s.forgeEvidence(dst, rs)
 	case "forge-vote":
 		s.forgeVote(dst, rs)
 	case "forge-proposal":
@@ -145,7 +150,16 @@ func (s *Sim) forgeVote(dst int, rs *cstypes.RoundState) {
 		a, _ := rs.Validators.GetByIndex(uint32(j))
 		v.ValidatorAddress, v.ValidatorIndex = a, uint32(j)
 	case "other-chain":
-		// the same keys sign on a second chain id; that signature is replayed here
+		// the same validator keys also sign on a second chain id. A vote the validator
+		// never cast on this chain (a nil vote in a round where it has signed nothing of
+		// that type here) is signed there and replayed here.
+		tgt := types.Vote{ValidatorAddress: r.Signer, ValidatorIndex: uint32(idx), Height: rs.Height, Round: rs.Round + uint32(s.tape.Draw(2)), Timestamp: time.Now(), Type: t}
+		for _, q := range recs {
+			if q.Signer == r.Signer && q.Height == tgt.Height && q.Round == tgt.Round && q.Kind == r.Kind && q.ChainID == s.spec.ChainID {
+				return // it did sign something of that kind here; pick another moment
+			}
+		}
+		*v = tgt
 		pv := v.ToProto()
 		pv.Signature = nil
 		for _, b := range s.byz {
